@@ -1671,3 +1671,39 @@ def r14_8(rep):
                               "`const fn %s` takes / returns `&mut`, stable in `const fn` since 1.83; the site is emitted ungated for every target "
                               "(earliest supported: 1.%d, newest stable known: 1.82)" % (name, lo), q.loc())
     rep.need(n >= 2, "`const fn` declarations in quote! sites of codegen")
+
+
+@RULES.rule("R14.9", "the rustc version detected in a build script reaches the target parser with its channel suffix", floor=1, configs=("lib",))
+def r14_9(rep):
+    """`RustTarget::from_str` maps `1.N.0-nightly` / `-beta` to what 1.(N-1) stabilised (R14.6).  The library default runs
+    `$RUSTC --version` and hands the number to the same parser; cutting the string at `-` first (before the fix) makes a nightly or
+    beta compiler count as the stable release of that number, and the bindings use what that release stabilised — which the
+    compiler performing the build may not accept yet (`unsafe extern` on 1.82.0-nightly).  In `<RustTarget as Default>::default`:
+    some `from_str` call receives a string that no `split` on `-` has shortened, and every call that receives a shortened one is a
+    fallback (`or_else` / `unwrap_or_else` of a previous attempt)."""
+    prog = rep.prog
+    b = rep.need(prog.impl_fn("std::default::Default", "features::RustTarget", "default"), "<RustTarget as Default>::default")
+    calls = [c for c in b.calls(lambda x: x["k"] == "Call" and "RustTarget as std::str::FromStr>::from_str" in (x.get("resolved") or x.get("callee") or "") or
+                                (x["k"] == "Call" and (x.get("callee") or "") == "std::str::FromStr::from_str"))]
+    rep.need(calls, "the parse of the detected version in RustTarget::default")
+
+    def cut_at_dash(e, depth=0):
+        """does the value of e pass through a `split` whose pattern contains '-'"""
+        for x in b.walk(e):
+            if x["k"] == "MCall" and x["name"] in ("split", "split_once", "splitn", "split_terminator", "trim_end_matches", "strip_suffix"):
+                pats = [y for a in x["args"] for y in b.walk(a) if y["k"] == "Lit"]
+                if any("-" in str(y.get("v", "")) for y in pats):
+                    return True
+            if x["k"] == "Local" and depth < 6 and b.local_init(x["id"]) is not None and cut_at_dash(b.local_init(x["id"]), depth + 1):
+                return True
+        return False
+    whole = [c for c in calls if not cut_at_dash(c["args"][0])]
+    cut = [c for c in calls if cut_at_dash(c["args"][0])]
+    ok = bool(whole)
+    for c in cut:
+        fallback = any(a["k"] == "Closure" and (b.parent[a["_i"]] or {}).get("name") in ("or_else", "unwrap_or_else", "or", "map_err")
+                       for a in b.ancestors(c))
+        ok = ok and fallback
+    rep.check(ok, "detected-version-keeps-channel@RustTarget::default",
+              "the version is parsed with its `-channel` suffix (%d attempt(s) on the whole string, %d fallback(s) on the bare number)" % (len(whole), len(cut))
+              if ok else "the detected version is cut at `-` before `from_str` sees it: `1.N.0-nightly` selects the features of stable 1.N", b.loc(calls[0]))
